@@ -17,6 +17,9 @@ EQUIV = {'PV.Equiv.Astro': ['gmst_eq', 'observer_position_eq'], 'PV.Equiv.Look':
 RULE = ("(TLE, time, observer) triples: observers uniform over the globe, at the poles and the date line, at the EXACT "
         "sub-satellite point (lon/lat returned by get_lonlatalt, altitude 0 and just below the satellite), at the antipode, "
         "with altitudes -0.5..9 km (observers below the ellipsoid included); module-level function also with geostationary altitudes; "
+        "geometries with EXACT zeros: satellite latitude and observer latitude both exactly +-0.0 at other longitudes (GEO/MEO/LEO "
+        "altitudes; south component exactly 0), observer on exactly the satellite's meridian, exactly under it, +-0.0 / +-180 / whole "
+        "degrees, as scalars and inside float64 / 2-d / integer-typed arrays, for the module function and (observer side) the method; "
         "both functions with array-valued observers (float64, float32, integer-typed whole-degree grids, 2-d); both functions with the "
         "time given in every representation of one instant (naive UTC, UTC-aware, offset-aware, datetime64[ns|us|ms|s]; process in "
         "UTC and non-UTC local zones) judged at the true instant; datetime64[ns] scalars and arrays with non-zero sub-microsecond "
@@ -201,6 +204,118 @@ def check_scalar(ctx, a, b, t, lon, lat, alt, o=None):
             ctx.violation("method_vs_module", dict(case, fn="both"), [az2, el2], "method %r within 5e-3 deg" % [az, el],
                           site="orbital.get_observer_look")
     return len(ctx.violations) - n0, d
+
+
+# ---------------------------------------------------------------- geometries with EXACT zeros
+def check_module_scalar(ctx, t, sat, lon, lat, alt):
+    """The module-level function with scalar arguments, satellite at the given lon/lat/alt, against the independent
+    east-north-up frame."""
+    from pyorbital import orbital
+    slon, slat, salt = [float(x) for x in sat]
+    n0 = len(ctx.violations)
+    th = geo.gmst_ref(t)
+    ref_az, ref_el = geo.look_ref(geo.geodetic_to_eci(slon, slat, salt, th), lon, lat, alt, th)
+    case = {"utc": t.isoformat(), "sat": [slon, slat, salt], "lon": lon, "lat": lat, "alt": alt, "fn": "module-scalar"}
+    ctx.count("eval_oracle_module_scalar")
+    with warnings.catch_warnings():
+        warnings.simplefilter("ignore")
+        try:
+            az, el = [float(x) for x in orbital.get_observer_look(np.float64(slon), np.float64(slat), np.float64(salt), t,
+                                                                    np.float64(lon), np.float64(lat), np.float64(alt))]
+        except ArithmeticError as e:
+            az, el = float("nan"), float("nan")
+            case = dict(case, raised="%s: %s" % (type(e).__name__, e))
+    judge(ctx, case, az, el, ref_az, ref_el, "orbital.get_observer_look")
+    return len(ctx.violations) - n0
+
+
+def _wrap180(x):
+    return x if -180.0 <= x <= 180.0 else ((x + 180.0) % 360.0) - 180.0
+
+
+def gen_exact_zero(ctx, slon=None, slat=None):
+    """A satellite point and 4 observers placed so that topocentric components vanish EXACTLY (not merely to rounding):
+    'equator'  satellite latitude and observer latitude both exactly +-0.0, other longitudes (a geostationary / MEO / LEO
+               satellite over the equator seen from a station on the equator: south component exactly 0, azimuth 90 or 270);
+    'meridian' observer on exactly the satellite's longitude (east component 0: azimuth 0 or 180);
+    'overhead' observer at exactly the satellite's lon/lat (altitude 0, above, below the ellipsoid);
+    'mixed'    one of each + an arbitrary observer.  Longitudes and latitudes incl. +-0.0, +-180, whole degrees.
+    With slon/slat given (the sub-satellite point of an Orbital) only the observers are drawn."""
+    r = ctx.rng
+
+    def z():
+        return r.choice([0.0, -0.0])
+    fam = r.choice(["equator", "equator", "equator", "meridian", "overhead", "mixed"])
+    if slon is None:
+        salt = r.choice([35786.0, 35786.0, 20200.0, float(r.randrange(300, 36000)), r.uniform(300, 2000), r.uniform(300, 36000)])
+        slon = r.choice([z(), r.choice([180.0, -180.0]), float(r.randrange(-179, 180)), r.uniform(-180, 180), r.uniform(-180, 180)])
+        slat = z() if fam in ("equator", "mixed") or r.random() < 0.5 else r.choice([float(r.randrange(-10, 11)), r.uniform(-10, 10)])
+    else:
+        salt = None
+    # half-width (deg of longitude) inside which the satellite is well above the horizon, and anything beyond
+    vis = 75.0 if (salt or 800.0) > 15000 else 20.0
+
+    def other_lon():
+        d = r.choice([r.uniform(-vis, vis), r.uniform(-vis, vis), float(r.randrange(1, int(vis))) * r.choice([-1, 1]),
+                      r.uniform(-180, 180), r.choice([90.0, -90.0, 180.0])])
+        return _wrap180(slon + (d if d else 1.0))
+
+    def alt_():
+        return r.choice([0.0, 0.0, -0.0, r.uniform(-0.5, 3.0), float(r.randrange(0, 4))])
+
+    def equator():
+        return (r.choice([other_lon(), other_lon(), z(), float(r.randrange(-180, 181))]), z(), alt_())
+
+    def meridian():
+        return (slon, r.choice([r.uniform(-90, 90), float(r.randrange(-90, 91)), z(), max(-90.0, min(90.0, slat + r.uniform(-vis, vis))),
+                                r.choice([90.0, -90.0])]), alt_())
+
+    def overhead():
+        return (slon, slat, r.choice([0.0, 0.0, -0.0, r.uniform(0.0, 9.0), r.uniform(-0.5, 0.0)]))
+
+    def anywhere():
+        return (r.uniform(-180, 180), r.uniform(-90, 90), alt_())
+    mk = {"equator": [equator] * 4, "meridian": [meridian] * 4, "overhead": [overhead, overhead, meridian, equator],
+          "mixed": [equator, meridian, overhead, anywhere]}[fam]
+    obs = [f() for f in mk]
+    if fam == "mixed":
+        r.shuffle(obs)
+    return fam, [slon, slat, salt], obs
+
+
+def exact_zero_module_probe(ctx):
+    """Module-level function at exact-zero geometries: every observer as a scalar call, and all of them in one array call
+    (float64, 2-d, integer-typed when every coordinate is a whole number)."""
+    r = ctx.rng
+    t = dt.datetime(2020, 1, 1) + dt.timedelta(seconds=r.uniform(0, 3e7))
+    if r.random() < 0.3:
+        t = t.replace(microsecond=0)
+    fam, sat, obs = gen_exact_zero(ctx)
+    ctx.bump("exact_zero_module", "%s/%s" % (fam, "GEO" if sat[2] > 30000 else "MEO" if sat[2] > 2000 else "LEO"))
+    ctx.distinct(("exact-zero-module", t.isoformat(), tuple(sat), tuple(obs)))
+    k = r.choice([1, 2, 4])
+    for (lon, lat, alt) in obs[:k]:
+        check_module_scalar(ctx, t, sat, lon, lat, alt)
+    lons, lats, alts = [o_[0] for o_ in obs], [o_[1] for o_ in obs], [o_[2] for o_ in obs]
+    whole = all(float(x).is_integer() for x in lons + lats + alts)
+    kind = r.choice(["f64", "f64", "f64_2d"] + (["i64", "i64", "i64"] if whole else []))
+    n = 4 if kind == "f64_2d" else r.choice([1, 2, 3, 4])
+    ctx.bump("exact_zero_module_array_kind", kind)
+    check_module_array(ctx, t, sat, lons[:n], lats[:n], alts[:n], kind)
+
+
+def exact_zero_method_probe(ctx, a, b, o, t):
+    """Object method (and the module function at the sub-satellite point) for observers at exactly latitude +-0.0, on exactly
+    the satellite's meridian, exactly under it: scalars, and the four of them in one array call."""
+    r = ctx.rng
+    slon, slat, _ = [float(x) for x in o.get_lonlatalt(t)]
+    fam, _, obs = gen_exact_zero(ctx, slon, slat)
+    ctx.bump("exact_zero_method", fam)
+    for (lon, lat, alt) in obs[:r.choice([1, 2, 4])]:
+        ctx.count("eval_oracle", 2)
+        check_scalar(ctx, a, b, t, lon, lat, alt, o)
+    kind = r.choice(["f64", "f64_2d"])
+    check_method_array(ctx, a, b, t, [o_[0] for o_ in obs], [o_[1] for o_ in obs], [o_[2] for o_ in obs], kind, o)
 
 
 TIME_REPRS = [("datetime", 0), ("aware", 0), ("aware", 330), ("aware", -480), ("aware", None), ("dt64us", 0), ("dt64ns", 0),
@@ -561,6 +676,10 @@ def oracle(ctx):
             lons[0], lats[0], alts[0] = slon, slat, 0.0
         ctx.bump("module_array_kind", kind)
         check_module_array(ctx, t, [slon, slat, salt], lons, lats, alts, kind)
+    # module-level function where topocentric components are EXACTLY zero: satellite and observer both at latitude +-0.0
+    # (GEO / MEO / LEO altitudes), observer on the satellite's meridian, exactly under it; scalars and inside arrays
+    for _ in range(ctx.size(250, 4000)):
+        exact_zero_module_probe(ctx)
     # object method with array-valued observers of the same kinds
     for (a, b, o) in orbits.make_orbitals(ctx, ctx.size(8, 80)):
         for t in orbits.rand_times(ctx, o, 3):
@@ -577,6 +696,8 @@ def oracle(ctx):
                                     [float(np.float32(x)) for x in alts])
             ctx.bump("method_array_kind", kind)
             check_method_array(ctx, a, b, t, lons, lats, alts, kind, o)
+            # observers at exactly latitude +-0.0 / on exactly the sub-satellite meridian / exactly under the satellite
+            exact_zero_method_probe(ctx, a, b, o, t)
     # one call for a whole time series (1 - 30 days, sorted and unsorted) and for arguments of different shapes that numpy
     # broadcasts (lat (S,1) x lon (1,L), stations x times, altitude along the leading axis only, 3-d): every element judged
     # at its own instant and observer
@@ -595,6 +716,13 @@ def replay(ctx, case):
     if inp.get("fn") == "module-array":
         n = check_module_array(ctx, dt.datetime.fromisoformat(inp["utc"]), inp["sat"], inp["lons"], inp["lats"], inp["alts"], inp["kind"])
         print("module-array case", inp, "violations", n)
+        return 1 if n else 0
+    if inp.get("fn") == "module-scalar":
+        n = check_module_scalar(ctx, dt.datetime.fromisoformat(inp["utc"]), inp["sat"], inp["lon"], inp["lat"], inp["alt"])
+        for v in ctx.violations[-n:] if n else []:
+            print("module function, satellite at", inp["sat"], "observer", [inp["lon"], inp["lat"], inp["alt"]], v["kind"],
+                  v["observed"], "required", v["required"])
+        print("module-scalar case", inp, "violations", n)
         return 1 if n else 0
     if inp.get("fn") == "method-array":
         n = check_method_array(ctx, inp["line1"], inp["line2"], dt.datetime.fromisoformat(inp["utc"]), inp["lons"], inp["lats"],
